@@ -151,6 +151,10 @@ def plan_jobs(chk, quota, rnd):
         tid = bisect.bisect_right(offs, n) - 1
         p, cfgs, faults = pl[tid]
         ci, fi = divmod(n - offs[tid], len(faults))
+        if p.get("skips") and any(len(sk) > 2 for sk in p["skips"]):
+            # an after_scenario hook that skips the enclosing feature / rule rewrites statuses of scenarios that were
+            # reported before: outside the statement (before_* hooks excluding their own element are kept)
+            p = dict(p, skips=[sk for sk in p["skips"] if len(sk) <= 2])
         if tid not in flats:
             flats[tid] = G.flatten(p)
         c = dict(cfgs[ci], retry=False)     # scenario_autoretry announces a scenario twice: outside the statement of C15
@@ -639,6 +643,8 @@ def run(chk):
                        "stdout rows: only runs in which behave itself prints nothing to stdout (no KeyboardInterrupt step, no raising "
                        "cleanup, no hook fault; stdout / stderr / logging capture on), so that the recorded stdout text is the report of the one formatter without -o",
                        "--no-junit --no-summary in all runs, so that a run that dies did so inside a formatter callback",
+                       "programs of the shared plan whose after_scenario hook skips the enclosing feature / rule run without that hook: it "
+                       "rewrites statuses of scenarios that were reported before",
                        "configurations of the shared plan with scenario_autoretry are run without it: a retried scenario is announced "
                        "twice, about which the statement is silent",
                        "tables and doc-strings of steps are judged on the decor rows only (the run cluster's programs have none); "
